@@ -86,6 +86,10 @@ EDITS = {
         ("ca04", RT + "vm.rs", "                    local_heap_closures.push(heap_idx);\n", "", "verus", "closures"),
         ("ca05", RT + "vm.rs", "                    local_closures.push(vaddr);\n", "", "verus", "closures"),
         ("ca06", RT + "vm.rs", "                    } else if let Some(closure_idx) = self.try_get_direct_closure(heap_addr) {\n                        if let Some(closure) = self.closures.get_mut(closure_idx.0) {\n                            closure.refcount += 1;", "                    } else if let Some(closure_idx) = self.try_get_direct_closure(heap_addr) {\n                        if let Some(closure) = self.closures.get_mut(closure_idx.0) {\n                            closure.refcount += 2;", "verus", "closures"),
+        ("uv01", RT + "vm.rs", "                    UpValue::Closed(v, is_closure) => (*is_closure).then_some(v[0]),", "                    UpValue::Closed(..) => None,", "verus", "upvalues"),
+        ("uv02", RT + "vm.rs", "                        *upv = UpValue::Closed(ov_raw.to_vec(), is_closure);\n                        is_closure.then_some(ov_raw[0])", "                        *upv = UpValue::Closed(ov_raw.to_vec(), is_closure);\n                        Some(ov_raw[0])", "verus", "upvalues"),
+        ("uv03", RT + "vm.rs", "                        UpValue::Closed(data, true) => Some(data[0]),", "                        UpValue::Closed(data, _) => Some(data[0]),", "verus", "upvalues"),
+        ("uv04", RT + "vm.rs", "                        *upv = UpValue::Closed(ov_raw.to_vec(), is_closure);", "                        *upv = UpValue::Closed(ov_raw.to_vec(), false);", "verus", "upvalues"),
         ("hp06", RT + "vm/heap.rs", "        obj.refcount == 0\n    } else {", "        obj.refcount <= 1\n    } else {", "both", "heap"),
     ],
     "C11": [
